@@ -406,7 +406,9 @@ mutual
   def hseSegs (E : EvalOps N) (pure : Bool) : List Seg → Bool
     | [] => false
     | .s _ :: rest => hseSegs E pure rest
-    | .v e :: rest => hasSideEffects E pure e || hseSegs E pure rest
+    | .v e :: rest =>
+      -- the value is converted with `tostring`, which can call `__tostring` (F4, fixed)
+      ((!pure && maybeMetatable (evaluate E e)) || hasSideEffects E pure e) || hseSegs E pure rest
 end
 
 end DarkluaModel.Evaluator
